@@ -1274,6 +1274,217 @@ Proof.
 Qed.
 
 (* ------------------------------------------------------------------ *)
+(* the number of comparisons of an operation: a threshold n, independent of the budget k and
+   of the foreign entry x, such that the operation is struck iff k < n *)
+Definition has_thr (F : cst -> cst) (a : list E) : Prop :=
+  exists n a', forall k x,
+    (n <= k -> F (mkC a (Some k) x false) = mkC a' (Some (k - n)) x false) /\
+    (k < n -> cerr (F (mkC a (Some k) x false)) = true).
+
+Lemma thr_id a : has_thr (fun s => s) a.
+Proof.
+  exists 0, a. intros k x. split; [|lia]. intros _. rewrite Nat.sub_0_r. reflexivity.
+Qed.
+
+Lemma thr_siftdown fuel : forall a sp pos, has_thr (fun s => c_siftdown fuel s sp pos) a.
+Proof.
+  induction fuel as [|fuel IH]; intros a sp pos; [apply thr_id|].
+  cbn [c_siftdown].
+  destruct (Nat.ltb sp pos) eqn:Hlt; [|apply thr_id].
+  set (pp := Nat.div2 (pos - 1)).
+  destruct (elt (nth pos a ed) (nth pp a ed)) eqn:Hl.
+  - destruct (IH (set_nth (set_nth a pp (nth pos a ed)) pos (nth pp a ed)) sp pp) as (n1 & a1 & H1).
+    exists (S n1), a1. intros k x. unfold cget, ccmp. cbn [carr cbudget cx].
+    destruct k as [|k]; [split; [lia | reflexivity]|].
+    cbn [cerr]. rewrite Hl.
+    destruct (H1 k x) as [Ha Hb]. unfold cswap, cget. cbn [carr cbudget cx cerr].
+    split; intros Hk.
+    + rewrite Ha by lia. reflexivity.
+    + apply Hb. lia.
+  - exists 1, a. intros k x. unfold cget, ccmp. cbn [carr cbudget cx].
+    destruct k as [|k]; [split; [lia | reflexivity]|].
+    cbn [cerr]. rewrite Hl. split; [|lia]. intros _. simpl. rewrite Nat.sub_0_r. reflexivity.
+Qed.
+
+Definition has_thr2 (F : cst -> cst * nat) (a : list E) : Prop :=
+  exists n a' p, forall k x,
+    (n <= k -> F (mkC a (Some k) x false) = (mkC a' (Some (k - n)) x false, p)) /\
+    (k < n -> cerr (fst (F (mkC a (Some k) x false))) = true).
+
+Lemma thr_siftup_loop fuel : forall a endpos pos,
+  has_thr2 (fun s => c_siftup_loop fuel s endpos pos) a.
+Proof.
+  assert (Hid : forall a p, has_thr2 (fun s => (s, p)) a).
+  { intros a p. exists 0, a, p. intros k x. split; [|lia]. intros _. rewrite Nat.sub_0_r. reflexivity. }
+  induction fuel as [|fuel IH]; intros a endpos pos; [apply Hid|].
+  cbn [c_siftup_loop].
+  destruct (Nat.ltb pos (Nat.div2 endpos)); [|apply Hid].
+  set (cp := 2 * pos + 1).
+  destruct (Nat.ltb (cp + 1) endpos).
+  - set (l := elt (nth cp a ed) (nth (cp + 1) a ed)).
+    set (c := if l then cp else cp + 1).
+    destruct (IH (set_nth (set_nth a c (nth pos a ed)) pos (nth c a ed)) endpos c) as (n1 & a1 & p1 & H1).
+    exists (S n1), a1, p1. intros k x. unfold cget, ccmp. cbn [carr cbudget cx].
+    destruct k as [|k]; [split; [lia | reflexivity]|].
+    cbn [cerr]. fold l. fold c.
+    destruct (H1 k x) as [Ha Hb]. unfold cswap, cget. cbn [carr cbudget cx cerr].
+    split; intros Hk.
+    + rewrite Ha by lia. reflexivity.
+    + apply Hb. lia.
+  - destruct (IH (set_nth (set_nth a cp (nth pos a ed)) pos (nth cp a ed)) endpos cp) as (n1 & a1 & p1 & H1).
+    exists n1, a1, p1. intros k x. unfold cswap, cget. cbn [carr cbudget cx cerr]. apply H1.
+Qed.
+
+Lemma thr_siftup a pos : has_thr (fun s => c_siftup s pos) a.
+Proof.
+  unfold c_siftup.
+  destruct (thr_siftup_loop (length a) a (length a) pos) as (n1 & a1 & p1 & H1).
+  destruct (thr_siftdown (S p1) a1 pos p1) as (n2 & a2 & H2).
+  exists (n1 + n2), a2. intros k x. cbn [carr].
+  destruct (H1 k x) as [Ha Hb].
+  destruct (Nat.le_gt_cases n1 k) as [Hle|Hgt].
+  - rewrite Ha by auto. cbn [cerr].
+    destruct (H2 (k - n1) x) as [Hc Hd]. split; intros Hk.
+    + rewrite Hc by lia. replace (k - n1 - n2) with (k - (n1 + n2)) by lia. reflexivity.
+    + apply Hd. lia.
+  - split; [lia|]. intros _. specialize (Hb Hgt).
+    destruct (c_siftup_loop _ _ _ _) as [s p]. simpl in Hb. rewrite Hb. exact Hb.
+Qed.
+
+Lemma thr_heappush a e : has_thr (fun s => c_heappush s e) a.
+Proof.
+  unfold c_heappush. cbn [carr cbudget cx cerr].
+  destruct (thr_siftdown (length (a ++ [e])) (a ++ [e]) 0 (length (a ++ [e]) - 1)) as (n & a' & H).
+  exists n, a'. intros k x. apply H.
+Qed.
+
+Lemma thr_heappop a :
+  exists n a' o, forall k x,
+    (n <= k -> c_heappop (mkC a (Some k) x false) = (mkC a' (Some (k - n)) x false, o)) /\
+    (k < n -> cerr (fst (c_heappop (mkC a (Some k) x false))) = true).
+Proof.
+  unfold c_heappop. cbn [carr cbudget cx cerr].
+  destruct (rev a) as [|lastelt t].
+  { exists 0, a, None. intros k x. split; [|lia]. intros _. rewrite Nat.sub_0_r. reflexivity. }
+  destruct (rev t) as [|ret t'].
+  { exists 0, [], (Some lastelt). intros k x. split; [|lia]. intros _. rewrite Nat.sub_0_r. reflexivity. }
+  destruct (thr_siftup (set_nth (ret :: t') 0 lastelt) 0) as (n & a' & H).
+  exists n, a', (Some ret). intros k x. destruct (H k x) as [Ha Hb]. split; intros Hk.
+  - rewrite Ha by auto. reflexivity.
+  - simpl fst. auto.
+Qed.
+
+Lemma thr_heapify_loop i : forall a, has_thr (c_heapify_loop i) a.
+Proof.
+  induction i as [|i IH]; intros a; [apply thr_id|].
+  cbn [c_heapify_loop].
+  destruct (thr_siftup a i) as (n1 & a1 & H1).
+  destruct (IH a1) as (n2 & a2 & H2).
+  exists (n1 + n2), a2. intros k x.
+  destruct (H1 k x) as [Ha Hb].
+  destruct (Nat.le_gt_cases n1 k) as [Hle|Hgt].
+  - rewrite Ha by auto. cbn [cerr].
+    destruct (H2 (k - n1) x) as [Hc Hd]. split; intros Hk.
+    + rewrite Hc by lia. replace (k - n1 - n2) with (k - (n1 + n2)) by lia. reflexivity.
+    + apply Hd. lia.
+  - split; [lia|]. intros _. rewrite (Hb Hgt). exact (Hb Hgt).
+Qed.
+
+Lemma thr_heapify a : has_thr c_heapify a.
+Proof.
+  destruct (thr_heapify_loop (Nat.div2 (length a)) a) as (n & a' & H).
+  exists n, a'. intros k x. unfold c_heapify. cbn [carr]. apply H.
+Qed.
+
+(* every loop-thread operation has a number of comparisons n: a foreign append scheduled
+   for comparison k >= n falls after the operation (sequential composition, t_op_atomic),
+   one scheduled for k < n strikes and the operation raises *)
+Theorem strike_threshold s op :
+  exists n, forall k x,
+    (n <= k -> between s op k x) /\
+    (k < n -> tout_ (t_op s op k x) = TRaise /\ ~ between s op k x).
+Proof.
+  assert (Hnb : forall k x, tout_ (t_op s op k x) = TRaise ->
+                 (op = LPop -> arr (pq_ s) <> []) -> ~ between s op k x).
+  { intros k x Hr Hne [Hb|[Ho He]]; [congruence | exact (Hne Ho He)]. }
+  destruct op as [|o p|o|o p]; simpl t_op.
+  - (* popleft *)
+    destruct (thr_heappop (arr (pq_ s))) as (n & a' & r & H).
+    destruct (arr (pq_ s)) as [|e0 t0] eqn:Harr.
+    { exists 0. intros k x. split; [|lia]. intros _. right. auto. }
+    exists n. intros k x. destruct (H k x) as [Ha Hb]. rewrite <- Harr in *.
+    split; intros Hk.
+    + left. simpl. intros Hr.
+      assert (He : cerr (fst (c_heappop (start s k x))) = false)
+        by (unfold start; rewrite Ha by auto; reflexivity).
+      rewrite (t_popleft_atomic s k x He) in Hr.
+      unfold pos_popleft, pq_popentry in Hr.
+      destruct (hs_pop_some HPV_spec (arr (pq_ s))) as (e & a1 & Hp); [rewrite Harr; discriminate|].
+      rewrite Hp in Hr. simpl in Hr. discriminate.
+    + assert (Hr : tout_ (t_popleft s k x) = TRaise)
+        by (apply t_popleft_struck_raises; unfold start; auto).
+      split; auto. apply (Hnb k x); auto. intros _. rewrite Harr. discriminate.
+  - (* append *)
+    set (e := mkE (mkPV p (n_ins s) 0 1) (seqn (pq_ s)) o).
+    destruct (thr_heappush (arr (pq_ s)) e) as (n & a' & H).
+    exists n. intros k x. destruct (H k x) as [Ha Hb]. split; intros Hk.
+    + left. simpl. rewrite t_append_atomic; [simpl; discriminate|].
+      fold e. unfold start. rewrite Ha by auto. reflexivity.
+    + assert (Hr : tout_ (t_append s o p k x) = TRaise)
+        by (apply t_append_struck_raises; fold e; unfold start; auto).
+      split; auto. apply (Hnb k x); auto. discriminate.
+  - (* find + remove *)
+    unfold between. simpl t_op. unfold t_find_remove.
+    destruct (find_last_index (Z.eqb o) (arr (pq_ s))) as [i|].
+    2:{ exists 0. intros k x. split; [|lia]. intros _. left. simpl. discriminate. }
+    destruct (Nat.eqb i (length (arr (pq_ s)) - 1)).
+    { exists 0. intros k x. split; [|lia]. intros _. left. simpl. discriminate. }
+    set (a0 := set_nth (removelast (arr (pq_ s))) i (last (arr (pq_ s)) ed)).
+    destruct (thr_heapify a0) as (n & a' & H).
+    exists n. intros k x. destruct (H k x) as [Ha Hb]. split; intros Hk.
+    + left. rewrite Ha by auto. simpl. discriminate.
+    + rewrite (Hb Hk). simpl. split; auto. intros [Hc|[Hc _]]; [congruence|discriminate].
+  - (* reschedule *)
+    unfold between. simpl t_op. unfold t_reschedule.
+    destruct (find_last_index (Z.eqb o) (arr (pq_ s))) as [i|].
+    2:{ exists 0. intros k x. split; [|lia]. intros _. left. simpl. discriminate. }
+    destruct (pclass (epri (nth i (arr (pq_ s)) ed)) =? 0)%Z.
+    { exists 0. intros k x. split; [|lia]. intros _. left. simpl. discriminate. }
+    destruct (pv_lt _ _ || pv_lt _ _).
+    2:{ exists 0. intros k x. split; [|lia]. intros _. left. simpl. discriminate. }
+    set (a0 := set_nth (arr (pq_ s)) i _).
+    destruct (thr_heapify a0) as (n & a' & H).
+    exists n. intros k x. destruct (H k x) as [Ha Hb]. split; intros Hk.
+    + left. rewrite Ha by auto. simpl. discriminate.
+    + rewrite (Hb Hk). simpl. split; auto. intros [Hc|[Hc _]]; [congruence|discriminate].
+Qed.
+
+(* item 2 with the hypothesis on k itself: a budget of at least the number of comparisons
+   gives the sequential composition *)
+Corollary atomic_when_budget_suffices s op :
+  exists n, forall k x,
+    (n <= k -> t_op s op k x = mkT (foreign_append (fst (seq_op s op)) x) (snd (seq_op s op))) /\
+    (k < n -> tout_ (t_op s op k x) = TRaise /\ ~ between s op k x).
+Proof.
+  destruct (strike_threshold s op) as [n H]. exists n. intros k x.
+  destruct (H k x) as [Ha Hb]. split; auto. intros Hk. apply t_op_atomic. auto.
+Qed.
+
+(* iteration struck (list.sort() empties the list while it sorts): ValueError escapes, the
+   queue is the sorted old content - the FOREIGN entry is discarded although the foreign
+   thread's _sequence += 1 took effect *)
+Theorem t_iter_struck_spec s :
+  boost_off s ->
+  let r := t_iter_struck s in
+  tout_ r = TRaise /\
+  arr (pq_ (tq r)) = stable_sort HPV (arr (pq_ s)) /\
+  seqn (pq_ (tq r)) = (seqn (pq_ s) + 1)%Z.
+Proof.
+  intros Hf r. subst r. unfold t_iter_struck. simpl tout_. simpl tq. split; auto.
+  exact (foreign_done_arr s (stable_sort HPV (arr (pq_ s))) Hf).
+Qed.
+
+(* ------------------------------------------------------------------ *)
 (* the hypotheses are satisfiable: queues built by appends satisfy the invariant, and on a
    concrete queue budget 5 does not strike (sequential composition) while budget 0 does *)
 Lemma prefill_inv l : PInvH (prefill l).
